@@ -18,6 +18,7 @@ type Options struct {
 	MapPerm       bool // enumerate map iteration orders (default: insertion order only)
 	RandAll       bool // enumerate rand answers from the boundary alphabet (default: 0 only)
 	TimerDevFree  bool // timer events cost no deviation (small virtual-time scenarios)
+	Delay         bool // delay bounding: choosing a thread costs the number of enabled threads skipped in round-robin order (default: preemption bounding, non-preempting switches free)
 	SpinLimit     int  // forced un-gatings of yielded threads before "livelock" (default 30)
 }
 
@@ -258,13 +259,20 @@ func isChanOp(op OpKind) bool { return op == OpChanSend || op == OpChanRecv || o
 //go:norace
 func (x *Exec) transitions() {
 	x.trs = x.trs[:0]
-	// canonical order: the thread that ran last first, then ascending id
+	// canonical order: the thread that ran last first, then the others by id - ascending from 0
+	// (preemption bounding) or cyclically after the last thread (delay bounding: round robin)
 	order := make([]*thread, 0, x.nthreads)
-	if x.last != nil && !x.last.finished {
-		order = append(order, x.last)
+	start := 0
+	if x.last != nil {
+		if !x.last.finished {
+			order = append(order, x.last)
+		}
+		if x.opts.Delay {
+			start = x.last.id + 1
+		}
 	}
-	for i := 0; i < x.nthreads; i++ {
-		t := x.threads[i]
+	for k := 0; k < x.nthreads; k++ {
+		t := x.threads[(start+k)%x.nthreads]
 		if t.finished || t == x.last {
 			continue
 		}
@@ -274,6 +282,7 @@ func (x *Exec) transitions() {
 		x.rank[t.id] = r
 	}
 	lastEnabled := false
+	nEnabled := 0 // threads with at least one transition, so far
 	for _, t := range order {
 		if t.yielded {
 			continue
@@ -292,11 +301,19 @@ func (x *Exec) transitions() {
 		} else if x.enabled(t) {
 			x.trs = append(x.trs, trans{t: t, arm: -1})
 		}
-		if t == x.last && len(x.trs) > n0 {
-			lastEnabled = true
+		if len(x.trs) > n0 {
+			if t == x.last {
+				lastEnabled = true
+			}
+			if x.opts.Delay {
+				for i := n0; i < len(x.trs); i++ {
+					x.trs[i].cost += uint8(nEnabled)
+				}
+			}
+			nEnabled++
 		}
 	}
-	if lastEnabled {
+	if lastEnabled && !x.opts.Delay {
 		for i := range x.trs {
 			if x.trs[i].t != x.last {
 				x.trs[i].cost++
